@@ -55,6 +55,11 @@ func c16Entry(k c16Key) *mredis.Entry {
 		return &mredis.Entry{Kind: "list", List: [][]byte{[]byte("l1-" + k.Name), []byte("l2"), []byte("l3-abcdefghijklmnopqrstuvwxyz")}}
 	case "hash":
 		return &mredis.Entry{Kind: "hash", Hash: map[string][]byte{"f1": []byte("v-" + k.Name), "f2": []byte("abcdefghijklmnopqrstuvwxyz")}, HashOrd: []string{"f1", "f2"}}
+	case "zset":
+		// dumped in the skiplist form with binary scores, as a current server does
+		return &mredis.Entry{Kind: "zset", ZSet: map[string]float64{"m-" + k.Name: 1.5, "m2-abcdefghijklmnopqrstuvwxyz": -2, "m3": 1e10}}
+	case "set":
+		return &mredis.Entry{Kind: "set", Set: map[string]bool{"s-" + k.Name: true, "s2-abcdefghijklmnopqrstuvwxyz": true}}
 	}
 	return &mredis.Entry{Kind: "string", Str: []byte("v-" + k.Name)}
 }
@@ -415,6 +420,7 @@ func TestVerif_C16(t *testing.T) {
 		{{0, "pa", "string", 0}, {0, "pb", "list", 50000}, {0, "qc", "hash", 0}},
 		{{0, "pa", "string", 50000}, {0, "pb", "hash", 0}, {1, "pa", "list", 0}, {1, "qd", "string", 70000}},
 		{{0, "pa", "string", 0}, {0, "pb", "string", 50000}, {0, "pc", "list", 0}, {0, "pd", "string", 0}, {12, "pe", "hash", 90000}},
+		{{0, "pz", "zset", 0}, {0, "ps", "set", 60000}, {1, "pz", "zset", 30000}},
 	}
 	var n, idx int64
 	capped := false
